@@ -457,6 +457,12 @@ func solve(file string, timeoutS int, all bool) (solverResult, []solverResult) {
 	for range solvers {
 		r := <-ch
 		allRes = append(allRes, r)
+		if r.Status == "sat" && strings.Contains(r.Backend, "/") {
+			// only a proof counts from the restricted variants (E-matching
+			// only, quantified rows, no quantifiers): their "sat" need not be
+			// a model of the full query
+			r.Status = "unknown"
+		}
 		if !got && (r.Status == "unsat" || r.Status == "sat") {
 			best = r
 			got = true
